@@ -37,7 +37,11 @@ def main():
     with cf.ThreadPoolExecutor(max_workers=8) as ex:
         for name, okh, lg in ex.map(b, hs):
             print('harness', name, 'ok' if okh else 'FAILED ' + lg)
-    return 0 if ok else 1
+    # Setup only warms the caches: every check rebuilds what it needs from /repo's working tree and reports its own state
+    # (a property module that does not build is a broken proof obligation of THAT property, reported by its check as a VIOLATION),
+    # so a failure here must not keep the other checks from running.
+    print('setup: ' + ('all claimed property modules built' if ok else 'SOME CLAIMED PROPERTY MODULES DID NOT BUILD (see above); their checks will report it'))
+    return 0
 
 if __name__ == '__main__':
     sys.exit(main())
